@@ -364,6 +364,8 @@ bool AutomationMgr::handleMidi(int channel, int type, int val)
         if(bound_nrpn)
             return 1;
         }
+        else
+            return 0; //incomplete (N)RPN sequence: no controller yet to drive or learn
         
     }
     else {
